@@ -144,6 +144,9 @@ def corpus():
     # ids on MathML elements that are not ASCII
     add("math-nonascii-id", "valid", mathc(E("ci", [T("t")], [("", "id", "é1")])))
     add("math-comment-in-ci", "valid", mathc(E("ci", [Cm("c"), T("t")])))
+    add("math-comment-then-unknown-ci", "fault", mathc(E("ci", [Cm("c"), T("nope")])), ["MATH_CI_VARIABLE_REFERENCE"], "component-math/ci-unknown-variable-after-comment")
+    add("math-diff-of-cn", "fault", mathc(E("apply", [E("diff"), E("bvar", [E("ci", [T("t")])]), _cn("1")])), ["MATH_MATHML"], "component-math/diff-operand-not-ci")
+    add("math-diff-of-ci", "valid", mathc(E("apply", [E("diff"), E("bvar", [E("ci", [T("t")])]), E("ci", [T("x")])])))
     add("math-padded-ci", "valid", mathc(E("ci", [T("  t ")])))
 
     # unreachable equivalence listed after a public and a private one, on both sides (C19's repair)
